@@ -141,7 +141,23 @@ class Module:
             raise AnalysisError(f'cannot parse {path}: {err}')
         strip_noops(self.tree)
         plain_local_assignments(self.tree)
-        from . import alpha
+        from . import alpha, gate
+        self.gated = []
+        if not os.environ.get('TD_NO_GATE'):
+            ref_src = gate.reference_sources().get(name)
+            if ref_src is not None and ref_src != self.src:
+                try:
+                    import warnings
+                    with warnings.catch_warnings():
+                        warnings.simplefilter('ignore')
+                        ref_tree = ast.parse(ref_src)
+
+                    def prepare(t):
+                        strip_noops(t)
+                        plain_local_assignments(t)
+                    self.gated = gate.apply(self.tree, ref_tree, prepare)
+                except SyntaxError:
+                    pass
         self.renamed = alpha.normalise(self.tree, name)
         for node in ast.walk(self.tree):
             for child in ast.iter_child_nodes(node):
